@@ -68,7 +68,7 @@ def key_of(uid):
     return 's' + uid if isinstance(uid, str) else 'i%d' % uid
 
 
-def tagged_policy(key, tag, bad=None, fixed_desc=False, empty_elem=False):
+def tagged_policy(key, tag, bad=None, fixed_desc=False, empty_elem=False, ctx_rule=False, no_resources=False):
     from vakt.policy import Policy
     # fixed_desc: every policy of the history carries the same description, so that an update changes nothing
     # but the elements (the tag is then read off the action)
@@ -85,7 +85,14 @@ def tagged_policy(key, tag, bad=None, fixed_desc=False, empty_elem=False):
         resources = ['r', '<<r>']          # compile_regex raises InvalidPatternError while the row is being built
     # empty_elem: the empty string is a legal string element (it matches the empty value)
     subjects = ['s', ''] if empty_elem else ['s']
-    return Policy(uid, actions=['a%d' % tag], subjects=subjects, resources=resources, effect='allow', description=desc)
+    if no_resources and bad != 'unbalanced_element':
+        resources = []                    # an empty definition field is legal
+    context = None
+    if ctx_rule:
+        from vakt.rules.operator import Eq
+        context = {'k': Eq(tag)}          # a Rule object inside the policy (must stay one wherever the policy is kept)
+    return Policy(uid, actions=['a%d' % tag], subjects=subjects, resources=resources, effect='allow', description=desc,
+                  context=context)
 
 
 def bad_kind(backend, op):
@@ -100,6 +107,14 @@ def bad_kind(backend, op):
     return None
 
 
+def _ctx_ok(ctx, tagtext):
+    from vakt.rules.operator import Eq
+    ctx = dict(ctx)
+    if ctx == {}:
+        return True
+    return list(ctx) == ['k'] and type(ctx['k']) is Eq and str(ctx['k'].val) == tagtext
+
+
 def render_policy(p):
     try:
         key = key_of(p.uid)
@@ -108,8 +123,8 @@ def render_policy(p):
                 p.actions[0][:1] == 'a' and p.actions[0][1:].isdigit():
             d = 't' + p.actions[0][1:]
         if isinstance(d, str) and d.startswith('t') and list(p.actions) == ['a' + d[1:]] and \
-                sorted(p.subjects) in (['s'], ['', 's']) and list(p.resources) == ['r'] and p.effect == 'allow' and \
-                dict(p.context) == {}:
+                sorted(p.subjects) in (['s'], ['', 's']) and list(p.resources) in (['r'], []) and \
+                p.effect == 'allow' and _ctx_ok(p.context, d[1:]):
             return '%s=%s' % (s_pstr(key), d[1:])
         return '%s=CORRUPT(%r,%r)' % (s_pstr(key), d, list(p.actions))
     except Exception as e:  # noqa
@@ -134,13 +149,15 @@ def do_op(st, backend, op):
     kind = op[0]
     fixed = len(op) > 4 and 'X' in op[4]
     empty = len(op) > 4 and 'E' in op[4]
+    ctxr = len(op) > 4 and 'R' in op[4]
+    nores = len(op) > 4 and 'N' in op[4]
     try:
         objs = st.__dict__.setdefault('_vf_objs', {})
     except Exception:  # noqa
         objs = {}
     try:
         if kind == 'add':
-            p = tagged_policy(op[1], op[2], bad_kind(backend, op) if op[3] else None, fixed, empty)
+            p = tagged_policy(op[1], op[2], bad_kind(backend, op) if op[3] else None, fixed, empty, ctxr, nores)
             st.add(p)
             objs[op[1]] = p
             return 'ok'
@@ -149,7 +166,7 @@ def do_op(st, backend, op):
             st.add(objs[op[1]])
             return 'ok'
         if kind == 'update':
-            p = tagged_policy(op[1], op[2], bad_kind(backend, op) if op[3] else None, fixed, empty)
+            p = tagged_policy(op[1], op[2], bad_kind(backend, op) if op[3] else None, fixed, empty, ctxr, nores)
             st.update(p)
             objs[op[1]] = p
             return 'ok'
@@ -221,8 +238,10 @@ def gen_ops(rng, backend, n, keys, allow_bad=True, mut_share=0.6, readd=True):
     tag = 0
     present = set()
     obj = {}                       # key -> tag of the Policy object last handed to an add/update that returned
-    flags = ('X' if rng.random() < 0.25 else '') + ('E' if rng.random() < 0.2 else '')
-    # X: a history whose updates change nothing but the elements; E: policies with an empty-string element
+    flags = ('X' if rng.random() < 0.25 else '') + ('E' if rng.random() < 0.2 else '') + \
+        ('R' if rng.random() < 0.3 else '') + ('N' if rng.random() < 0.2 else '')
+    # X: a history whose updates change nothing but the elements; E: policies with an empty-string element;
+    # R: policies with a Rule object in the context; N: policies with an empty resources field
     fixed = [flags] if flags else []
     for _ in range(n):
         r = rng.random()
